@@ -16,14 +16,14 @@ import re
 UNWRAP_RX = re.compile(r"(option::Option|result::Result)(<.*>)?::(unwrap|expect|unwrap_err|expect_err)$")
 INDEX_RX = re.compile(r"ops::Index(Mut)?(<.*>)?>?::index(_mut)?$|SliceIndex(<.*>)?>?::(index|index_mut)$")
 PRECOND_RX = re.compile(
-    r"slice::<impl \[T\]>::(split_at|split_at_mut|copy_from_slice|clone_from_slice|copy_within|swap|chunks|chunks_exact|windows|rotate_left|rotate_right|split_first_chunk)$|"
+    r"slice::(<impl \[T\]>::)?(split_at|split_at_mut|copy_from_slice|clone_from_slice|copy_within|swap|chunks|chunks_exact|windows|rotate_left|rotate_right|split_first_chunk)$|"
     r"(bytes::)?(BytesMut|Bytes)::(split_to|split_off|advance|slice|truncate_front)$|bytes::Buf::(advance|copy_to_slice|copy_to_bytes|get_u8|get_u16|get_u32|get_u64|split_to)$|buf::Buf::\w+$|"
     r"bytes::BufMut::(put_slice|advance_mut)$|"
     r"vec::Vec(<.*>)?::(remove|swap_remove|insert|split_off|drain)$|VecDeque(<.*>)?::(remove|insert|drain|split_off|swap)$|"
-    r"str::<impl str>::(split_at|split_at_mut)$|string::String::(remove|insert|insert_str|split_off|drain|truncate)$|"
-    r"num::<impl \w+>::(pow|ilog2|ilog10|div_euclid|rem_euclid|abs|next_power_of_two)$|"
+    r"str::(<impl str>::)?(split_at|split_at_mut)$|string::String::(remove|insert|insert_str|split_off|drain|truncate)$|"
+    r"num::(<impl \w+>::)?(pow|ilog2|ilog10|div_euclid|rem_euclid|abs|next_power_of_two)$|"
     r"cell::RefCell(<.*>)?::(borrow|borrow_mut)$|time::Instant::(sub|add|duration_since)$|"
-    r"array::<impl .*>::try_from$")
+    r"array::(<impl .*>::)?try_from$")
 ALLOC_RX = re.compile(
     r"vec::Vec(<.*>)?::(with_capacity|resize|reserve|reserve_exact)$|vec::from_elem$|"
     r"(bytes::)?BytesMut::(zeroed|with_capacity|resize|reserve)$|VecDeque(<.*>)?::(with_capacity|reserve)$|"
